@@ -119,5 +119,7 @@ contract(
         "feature": "implies(result is not None, result.kind == 'FeatureBlock' and result.name == 'curs' and len(result.statements) >= 1)",
     },
     canaries={"never-none": "result is not None", "always-split": "gsplit"},
-    loops={_LOOP: Loop(index="i", invariants={"lookups": f"all({_IS_LOOKUP} for k in range(len(lookups)))"})},
+    # (no invariant about the lookups collected so far: `_makeCursiveLookup` declares the node fields it writes per class, so facts about earlier lookups do
+    # not survive the next call — what each lookup is, is `_makeCursiveLookup`'s own contract; which glyphs go into which half is observed end to end)
+    loops={_LOOP: Loop(index="i", invariants={})},
 )
